@@ -23,7 +23,7 @@ type Program struct {
 	Dir        string
 	Fset       *token.FileSet
 	ModulePath string
-	Pkgs       []*packages.Package     // packages of the target module, sorted by path
+	Pkgs       []*packages.Package // packages of the target module, sorted by path
 	ByPkgName  map[string]*packages.Package
 	SSA        *ssa.Program
 	SSAPkg     map[string]*ssa.Package // by package name (gogu, heap, cache, ...)
